@@ -83,6 +83,10 @@ class C01(Prop):
                 lines.append("sbccat %s %s" % (h, c))
                 chunks = gen.apply_cuts(s, cuts)
                 lines.append("strm never vec - " + ",".join("a:" + gen.hexs(ch) for ch in chunks))
+        for data, cuts in gen.threshold_cases(rng, tier == "thorough"):
+            c = ",".join(map(str, cuts)) if cuts else "-"
+            lines.append("sbccat %s %s" % (gen.hexs(data), c))
+            lines.append("strm never vec - " + ",".join("a:" + gen.hexs(ch) for ch in gen.apply_cuts(data, cuts) if ch))
         yield "incremental-and-never-stream", lines
         # partly consumed one-shot iterators: Display / to_string / into_vec / is_empty / extend
         lines = []
